@@ -30,14 +30,27 @@ pub struct C14Case {
     /// 3: old worker runs to its end first, then reopen
     pub placement: u8,
     pub k: u8,
+    /// how long the old worker is kept parked while waiting for drop() to return (ms)
+    pub hold_ms: u16,
+    /// appends issued after the last acknowledged flush and never flushed (they may rotate the chunk)
+    pub tail_writes: u8,
+    /// while drop() has not returned and the old worker is parked, try to open the directory
+    pub probe: bool,
 }
 
 impl C14Case {
     pub fn to_json(&self) -> serde_json::Value {
-        json!({"sc": self.sc.to_json(), "placement": self.placement, "k": self.k})
+        json!({"sc": self.sc.to_json(), "placement": self.placement, "k": self.k, "hold_ms": self.hold_ms, "tail_writes": self.tail_writes, "probe": self.probe})
     }
     pub fn from_json(v: &serde_json::Value) -> Option<Self> {
-        Some(C14Case { sc: SchedCase::from_json(&v["sc"])?, placement: v["placement"].as_u64()? as u8, k: v["k"].as_u64()? as u8 })
+        Some(C14Case {
+            sc: SchedCase::from_json(&v["sc"])?,
+            placement: v["placement"].as_u64()? as u8,
+            k: v["k"].as_u64()? as u8,
+            hold_ms: v["hold_ms"].as_u64().unwrap_or(50) as u16,
+            tail_writes: v["tail_writes"].as_u64().unwrap_or(0) as u8,
+            probe: v["probe"].as_bool().unwrap_or(false),
+        })
     }
 }
 
@@ -51,6 +64,9 @@ pub struct C14Stats {
     pub opener_parked_mid_open: u64,
     pub new_instance_flushes_acked: u64,
     pub old_worker_events_after_ack: u64,
+    pub long_holds: u64,
+    pub unflushed_tail_writes: u64,
+    pub probes_refused_during_drop: u64,
 }
 
 fn v(case: &C14Case, sig: &str, text: String) -> Viol {
@@ -72,7 +88,9 @@ pub fn gen_case(seed: u64, hist: u64) -> C14Case {
     // reads must not depend on the cache after the restart
     h.cfg.max_items = *r.pick(&[None, Some(0), Some(2)]);
     let sched = sched::gen_sched(&mut r, h.steps.len());
-    C14Case { sc: SchedCase { hist: h, sched, faults: vec![], reader_steps: vec![], gate_acks: true }, placement: r.below(4) as u8, k: r.range(1, 3) as u8 }
+    let hold_ms = if r.chance(1, 5) { 400 } else { 50 };
+    let tail_writes = *r.pick(&[0u8, 0, 1, 2, 3]);
+    C14Case { sc: SchedCase { hist: h, sched, faults: vec![], reader_steps: vec![], gate_acks: true }, placement: r.below(4) as u8, k: r.range(1, 3) as u8, hold_ms, tail_writes, probe: r.chance(1, 2) }
 }
 
 /// Grant permits to every parked thread except `except` until `until()` holds.
@@ -101,17 +119,25 @@ struct TailOut {
     done: bool,
 }
 
-fn check_instance(case: &C14Case, st: &Store, m: &Model, what: &str) -> Result<(), Viol> {
+/// The store must show one of the allowed models (the acknowledged state, or that plus a prefix of the
+/// writes issued after the last acknowledged flush). Returns the index of the model it shows.
+fn check_instance(case: &C14Case, st: &Store, allowed: &[Model], what: &str) -> Result<usize, Viol> {
     let got = st.state();
+    let entries = match st.read_all() {
+        Outcome2::Ok(e) => e,
+        Outcome2::Err(e) => return Err(v(case, "reopen_read_error", format!("{}: read failed: {}", what, e))),
+        Outcome2::Panic(p) => return Err(v(case, "reopen_read_panic", format!("{}: read panicked: {}", what, p))),
+    };
+    for (i, m) in allowed.iter().enumerate().rev() {
+        if got == m.st && entries == m.entries() {
+            return Ok(i);
+        }
+    }
+    let m = &allowed[0];
     if got != m.st {
-        return Err(v(case, "reopen_state", format!("{}: state {:?} != acknowledged state {:?}", what, got, m.st)));
+        return Err(v(case, "reopen_state", format!("{}: state {:?} is neither the acknowledged state {:?} nor that plus a prefix of the {} unflushed writes", what, got, m.st, allowed.len() - 1)));
     }
-    match st.read_all() {
-        Outcome2::Ok(e) if e == m.entries() => Ok(()),
-        Outcome2::Ok(e) => Err(v(case, "reopen_entries", format!("{}: {}", what, seq::diff_entries(&e, &m.entries())))),
-        Outcome2::Err(e) => Err(v(case, "reopen_read_error", format!("{}: read failed: {}", what, e))),
-        Outcome2::Panic(p) => Err(v(case, "reopen_read_panic", format!("{}: read panicked: {}", what, p))),
-    }
+    Err(v(case, "reopen_entries", format!("{}: {}", what, seq::diff_entries(&entries, &m.entries()))))
 }
 
 pub fn run_one(case: &C14Case) -> Result<(C14Stats, Option<Viol>), RunErr> {
@@ -163,6 +189,22 @@ pub fn run_one(case: &C14Case) -> Result<(C14Stats, Option<Viol>), RunErr> {
             if trace::ack_state(fid) != Some(trace::AckState::Ok) {
                 return Err(RunErr::Viol(v(case, "ack_err", "last flush acknowledged with an error without any fault".into())));
             }
+            // --- writes after the last acknowledged flush, never flushed
+            let mut allowed: Vec<Model> = vec![r.m.clone()];
+            for i in 0..case.tail_writes {
+                let next = match r.m.st.last {
+                    Some(l) => (l.0 + 1, l.1 + 1),
+                    None => (1, 0),
+                };
+                let op = Op::Append(vec![(next, format!("c14-tail-{}", i))]);
+                let o = r.st.write(&op);
+                if !o.is_ok() {
+                    return Err(RunErr::Viol(v(case, "tail_write_failed", format!("{} -> {}", op.brief(), o.brief()))));
+                }
+                crate::genr::Gen::apply_to_model(&mut r.m, &op);
+                allowed.push(r.m.clone());
+                out.stats.unflushed_tail_writes += 1;
+            }
             // where is the old worker now?
             let parked = match r.settle() {
                 Settle::AtGate(_, p) => Some(p),
@@ -176,7 +218,6 @@ pub fn run_one(case: &C14Case) -> Result<(C14Stats, Option<Viol>), RunErr> {
                     out.stats.pending_unlinks_at_drop += 1;
                 }
             }
-            let model = r.m.clone();
             // --- drop on a helper thread
             let rl = r.st.rl.take().expect("store open");
             let inst = r.st.inst;
@@ -194,7 +235,30 @@ pub fn run_one(case: &C14Case) -> Result<(C14Stats, Option<Viol>), RunErr> {
             // Give drop a moment. This wait decides only WHEN the parked worker is released; the
             // verdicts below are ordering facts of the trace.
             let t0 = util::now_s();
-            while !dropped.load(Ordering::SeqCst) && util::now_s() - t0 < 0.05 {
+            let hold = case.hold_ms as f64 / 1000.0;
+            if case.hold_ms > 100 {
+                out.stats.long_holds += 1;
+            }
+            let mut probed = false;
+            while !dropped.load(Ordering::SeqCst) && util::now_s() - t0 < hold {
+                // drop() is in progress and the old worker is parked with work pending: nobody else may get the directory
+                if case.probe && !probed && parked.is_some() && util::now_s() - t0 > 0.01 {
+                    probed = true;
+                    let alive = old_tid.map(trace::thread_alive).unwrap_or(false);
+                    match Store::open(&r.st.dir, &r.st.cfg, 3) {
+                        Ok(mut intruder) => {
+                            if alive && old_tid.map(trace::thread_alive).unwrap_or(false) {
+                                out.viol = Some(v(case, "directory_handed_over_before_worker_quiesced", "while drop() of the old instance had not returned and its worker thread was still alive with queued work, another open() of the directory succeeded".into()));
+                            }
+                            trace::gate_disable();
+                            intruder.close();
+                            let _ = dropper.join();
+                            out.done = true;
+                            return Ok(());
+                        }
+                        Err(_) => out.stats.probes_refused_during_drop += 1,
+                    }
+                }
                 std::thread::yield_now();
             }
             let returned_early = dropped.load(Ordering::SeqCst);
@@ -299,13 +363,16 @@ pub fn run_one(case: &C14Case) -> Result<(C14Stats, Option<Viol>), RunErr> {
                 }
             }
             let mut ns = new_store.unwrap();
-            if let Err(vi) = check_instance(case, &ns, &model, "right after reopen") {
-                out.viol = Some(vi);
-                let _ = release_old_fully();
-                ns.close_released();
-                out.done = true;
-                return Ok(());
-            }
+            let model = match check_instance(case, &ns, &allowed, "right after reopen") {
+                Ok(i) => allowed[i].clone(),
+                Err(vi) => {
+                    out.viol = Some(vi);
+                    let _ = release_old_fully();
+                    ns.close_released();
+                    out.done = true;
+                    return Ok(());
+                }
+            };
             // --- the old worker (if still there) finishes underneath the new instance
             if old_alive() && !release_old_fully() {
                 return Err(RunErr::Inconclusive("old worker did not end".into()));
@@ -350,7 +417,7 @@ pub fn run_one(case: &C14Case) -> Result<(C14Stats, Option<Viol>), RunErr> {
             }
             out.stats.new_instance_flushes_acked += 1;
             let _ = pump(None, &|| ns.idle(), 10.0);
-            if let Err(vi) = check_instance(case, &ns, &m2, "after purge+flush on the new instance") {
+            if let Err(vi) = check_instance(case, &ns, &[m2.clone()], "after purge+flush on the new instance") {
                 out.viol = Some(vi);
             }
             ns.close_released();
@@ -403,6 +470,9 @@ pub fn run_shard(ctx: &mut Ctx) {
                 ctx.out.count("reopen_while_old_worker_still_parked", s.reopen_while_old_worker_parked);
                 ctx.out.count("opener_parked_inside_open", s.opener_parked_mid_open);
                 ctx.out.count("new_instance_purge_flush_acked", s.new_instance_flushes_acked);
+                ctx.out.count("cases_holding_the_worker_parked_for_400ms", s.long_holds);
+                ctx.out.count("unflushed_writes_after_the_last_ack", s.unflushed_tail_writes);
+                ctx.out.count("open_attempts_refused_while_drop_in_progress", s.probes_refused_during_drop);
                 ctx.out.count(&format!("placement:{}", case.placement), 1);
                 if vi.is_none() && s.pending_steps_at_drop > 0 {
                     ctx.out.distinct.insert(util::hash_str(&case.to_json().to_string()));
